@@ -175,9 +175,9 @@ func Model(r *rand.Rand, opt ModelOpt) *openfgav1.AuthorizationModel {
 		m.TypeDefinitions = append(m.TypeDefinitions, td)
 	}
 	if opt.Hazards && r.Intn(2) == 0 {
-		g.plant(m, terms, objs, relNames, r.Intn(16))
+		g.plant(m, terms, objs, relNames, r.Intn(18))
 	} else if opt.Shapes && r.Intn(4) == 0 {
-		g.plant(m, terms, objs, relNames, 12+r.Intn(4))
+		g.plant(m, terms, objs, relNames, []int{12, 13, 14, 15, 17}[r.Intn(5)])
 	}
 	if opt.PureCycles && r.Intn(3) == 0 && len(relNames) >= 2 {
 		// a cycle of pure computed relations of length 2..len
@@ -375,6 +375,31 @@ func (g *mgen) plant(m *openfgav1.AuthorizationModel, terms, objs, rels []string
 			set("q", This(), RefType(o))
 			set(b, This(), RefType(u), RefType(u1))
 			set(a, Inter(TTU(b, "p"), TTU(b, "q")))
+		}
+	case 16, 17: // two TTUs with the same computed relation over different tuplesets whose parents reach DISJOINT user types:
+		// 16 INVALID under an intersection (no common type), 17 VALID under an exclusion
+		if len(objs) >= 2 && u != u1 && a != b {
+			o2 := objs[(r.Intn(len(objs)-1)+1+indexOf(objs, o))%len(objs)]
+			set("p", This(), RefType(o))
+			set("q", This(), RefType(o2))
+			set(b, This(), RefType(u))
+			for _, td2 := range m.TypeDefinitions {
+				if td2.GetType() == o2 {
+					td2.Relations[b] = This()
+					if td2.Metadata == nil {
+						td2.Metadata = &openfgav1.Metadata{}
+					}
+					if td2.Metadata.Relations == nil {
+						td2.Metadata.Relations = map[string]*openfgav1.RelationMetadata{}
+					}
+					td2.Metadata.Relations[b] = &openfgav1.RelationMetadata{DirectlyRelatedUserTypes: []*openfgav1.RelationReference{RefType(u1)}}
+				}
+			}
+			if which == 16 {
+				set(a, Inter(TTU(b, "p"), TTU(b, "q")))
+			} else {
+				set(a, Diff(TTU(b, "p"), TTU(b, "q")))
+			}
 		}
 	case 15: // VALID: nested operators mixing all three kinds over one multi-type direct assignment
 		if a != b {
